@@ -10,6 +10,13 @@ Spec oracle: the same generated source, compiled by the reference `go build`, du
 Method(i)/Field(i) — "as Go does" is judged against that.
 Tie (A): the same package compiled by llgo (-O0 -gen-llfiles); the emitted descriptor constants are read back from the IR
 (vlib/irdesc.py) and compared symbol by symbol with what the harness/model say ssa/abitype.go emits.
+Run-time readers (runtime_tie): every emitted descriptor is rebuilt in native memory with the layout the IR declares
+(vlib/irlayout.py, harness/c15/native) and read by the REAL runtime/abi (Uncommon, NumMethod, ExportedMethods, IsExported) and
+runtime/internal/runtime (DirectIfaceData, IfacePtrData; native copy); judged against the reference reflect (NumMethod, Method(i),
+PkgPath, Field(i).PkgPath) and the receiver-word rule; Model/TypeDesc.lean (where the uncommon part sits per kind, which kinds are
+direct-iface, StructType.PkgPath_) is compared with both sites.
+e2e (e2e_tie): the compiled program itself (println only) calls methods of defined types of every kind through interfaces; its text
+must be the reference build's.
 """
 import json
 import os
@@ -394,10 +401,11 @@ def explain_string(go, llgo):
 
 def run(ctx, args):
     quick = ctx.tier == "quick"
-    n = int(os.environ.get("C15_TYPES", "2500" if quick else "30000"))
+    n = int(os.environ.get("C15_TYPES", "2100" if quick else "30000"))
     rng = ctx.rng
     st = lean_check(ctx, ["LlgoVerif.Props.C15"], ["LlgoVerif/Props/C15.lean"],
-                    extra_files=["LlgoVerif/Model/TypeStr.lean", "LlgoVerif/Model/GoType.lean", "LlgoVerif/Lemmas/TypeStr.lean"],
+                    extra_files=["LlgoVerif/Model/TypeStr.lean", "LlgoVerif/Model/GoType.lean", "LlgoVerif/Lemmas/TypeStr.lean",
+                                 "LlgoVerif/Model/TypeDesc.lean", "LlgoVerif/Lemmas/TypeDesc.lean"],
                     leanchecker=(ctx.tier == "thorough"))
     modeld = build_driver(ctx, "modeld_c15")
     harness = build_go_harness(ctx, "c15")
@@ -487,6 +495,7 @@ def run(ctx, args):
     # println goes to stderr: what z15Run() prints under the reference toolchain is the expected text of the compiled program
     oracle_e2e = [l for l in oe.split("\n") if l.startswith("e2e ")]
     unknown_seen = {}
+    ctx.log("oracle: reference toolchain's reflect described %d types; %d e2e lines" % (len(oracle), len(oracle_e2e)))
 
     def report(aspect, i, what, detail, classes=None):
         nonlocal spec_fail
@@ -567,6 +576,8 @@ def run(ctx, args):
     # ------------------------------------------------------------ verdict
     if corr_bad:
         ctx.log("correspondence mismatches: %d, first: %s" % (len(corr_bad), str(corr_bad[0])[:900]))
+        for cb in corr_bad[1:8]:
+            ctx.log("  also: " + str(cb)[:600])
         ctx.broken.append("correspondence real vs Lean model / emitted IR (%d cases)" % len(corr_bad))
         if not ctx.violations:
             ctx.report_broken("correspondence C15 real-vs-model", {"first": [str(x)[:900] for x in corr_bad[:5]]})
@@ -579,11 +590,16 @@ def run(ctx, args):
     ctx.coverage.pop("_ir_seen", None)
     ctx.coverage["ir_tie"] = ir_info
     ctx.coverage["not_covered"] = ("runtime/internal/lib/reflect and fmt at run time (Value get/set/convert, DeepEqual, method calls through reflect, fmt verbs), "
-                                   "the pruning of method tables (checkReflect / filterAbiSymbol), field offsets and sizes (C08): no program importing reflect or fmt can be built by llgo in this sandbox")
+                                   "the pruning of method tables (checkReflect / filterAbiSymbol), field offsets and sizes (C08): no program importing reflect or fmt can be built by llgo in this sandbox. "
+                                   "Of the run-time side only the descriptor READERS below reflect are exercised: runtime/abi (Uncommon, NumMethod, ExportedMethods, Methods, IsExported) and "
+                                   "runtime/internal/runtime DirectIfaceData/IfacePtrData natively on the emitted descriptors, and interface method calls / type assertions of a println-only compiled program")
     ctx.coverage["trusted_base"] += [
         "reference Go toolchain's reflect (go1.24) run natively on the same generated source is the oracle for 'as Go does'",
         "hand-written Lean model of ssa/abi/type.go Str/TFlag/Kind and the table builders of ssa/abitype.go, tied by a differential run of the real ssa/abi (imported) and by reading llgo's emitted descriptor constants back from -O0 IR (vlib/irdesc.py: regular expressions over constant initialisers)",
         "harness/c15 re-states the three-line table layouts of abitype.go (abiUncommonMethodSet, emitted names); the IR read-back checks them against the real emitter",
+        "vlib/irlayout.py (LLVM type sizes from the IR's own type definitions, x86-64 natural alignment) and harness/c15/native (rebuilds an emitted descriptor in native memory as "
+        "struct{ <Go type named like the IR's header type>; UncommonType; [n]Method } via reflect.StructOf; a func value is one word natively and two in llgo, so offsets are compared per layout, not as raw bytes); "
+        "the one-line rule of (*structType).Field (`if !abi.IsExported(name) { PkgPath = t.PkgPath_ }`) is re-stated in the loader, abi.IsExported itself is the real one",
     ]
     ctx.assumptions += ["only the compiler-emitted descriptors are examined; whether llgo's reflect library reads them as Go's reflect reads Go's is not checked"]
     return ctx.finish("proof", {"evaluations": evaluations + ir_info.get("descriptors_compared", 0), "distinct_nontrivial": len(nontrivial),
@@ -611,9 +627,28 @@ def ir_tie(ctx, types_, descs, stats, corr_bad, oracle, nfixed, mshapes, modeld,
     d = os.path.join(ctx.scratch, "irprog")
     e2e.write_module(d, {"p/p.go": package_source("p", []), "q/q.go": package_source("q", []),
                          "main.go": package_source("r", decls, name="main", main_extra=mshapes) + keep + "\nfunc main() { println(len(Keep)); z15Run() }\n"}, modname=tg.MOD)
-    e2e.build_llgo(ctx)
+    # the native copy of the run-time readers builds while llgo compiles
+    import threading
+    nat_box = {}
+
+    def build_native():
+        try:
+            nat_box["bin"] = build_native_loader(ctx)
+        except Exception as ex:          # re-raised in the main thread
+            nat_box["err"] = ex
+    nat_thread = threading.Thread(target=build_native)
+    nat_thread.start()
+    try:
+        e2e.build_llgo(ctx)
+    except BaseException:
+        nat_thread.join()
+        raise
+    ctx.log("llgo built from the working tree")
     env = e2e.llgo_env(ctx)
     p = sh([ctx.llgo, "build", "-tags", "nogc", "-O0", "-gen-llfiles", "-o", os.path.join(d, "prog0"), "."], cwd=d, env=env)
+    nat_thread.join()
+    if "err" in nat_box:
+        raise nat_box["err"]
     if p.returncode != 0:
         ctx.log("llgo failed to build the descriptor package:\n" + (p.stdout + p.stderr)[-3000:])
         ctx.report_broken("tie A: llgo build -gen-llfiles of the generated package", (p.stdout + p.stderr)[-3000:])
@@ -718,7 +753,7 @@ def ir_tie(ctx, types_, descs, stats, corr_bad, oracle, nfixed, mshapes, modeld,
     stats["ir-descriptors-compared"] = compared
     info = {"ran": True, "descriptors_compared": compared, "symbols_in_module": len(ir), "types_requested": len(pick), "not_emitted": missing}
     # ---- the run-time readers on the emitted descriptors (native), and the compiled program itself
-    rt_info = runtime_tie(ctx, types_, descs, oracle, pick, ir, irtext, modeld, envlines, stats, corr_bad)
+    rt_info = runtime_tie(ctx, nat_box["bin"], types_, descs, oracle, pick, ir, irtext, modeld, envlines, stats, corr_bad)
     e2e_info = e2e_tie(ctx, os.path.join(d, "prog0"), oracle_e2e, stats)
     info["runtime_readers"] = rt_info
     info["e2e"] = e2e_info
@@ -740,42 +775,65 @@ def e2e_tie(ctx, prog, oracle_e2e, stats):
     fails = 0
     stats["e2e:lines-expected"] = len(oracle_e2e)
     stats["e2e:lines-printed"] = len(got)
-    seen = set()
-    for k, want in enumerate(oracle_e2e):
-        have = got[k] if k < len(got) else None
+
+    def keyed(lines):
+        # "e2e <type> <what> <value>": (type, what) -> value; a line is only printed when its guard holds, so lines are matched by key
+        return {tuple(l.split(" ")[1:-1]): l for l in lines}
+    have_by_key = keyed(got)
+    last_printed = tuple(got[-1].split(" ")[1:-1]) if got else None
+    died = rc != 0
+    seen = []
+    agree = 0
+    after_last = last_printed is None
+    for want in oracle_e2e:
+        key = tuple(want.split(" ")[1:-1])
+        have = have_by_key.get(key)
         if have == want:
-            continue
-        typ = want.split(" ")[1] if len(want.split(" ")) > 1 else "?"
-        if typ in seen:
-            continue
-        seen.add(typ)
-        fails += 1
-        if have is None:
-            what = "the compiled program stopped (exit status %s) before printing the line the reference toolchain prints" % rc
-        else:
-            what = "a method called through an interface (or a type assertion) gives another result than under the reference toolchain"
-        if len(seen) <= 4:
-            ctx.report("e2e:%s:%s" % (typ, " ".join(want.split(" ")[2:-1])[:40]), what,
-                       {"expected_line": want, "llgo_line": have, "line_number": k, "exit_status": rc, "stderr_tail": se[-600:] if have is None else "",
+            agree += 1
+        elif have is not None or not (died and after_last):
+            # a differing value, or a line that is missing although the program went on (its guard, e.g. the `ok` of an assertion, differs:
+            # the guard's own line is reported)
+            if have is not None and key[0] not in seen:
+                seen.append(key[0])
+                fails += 1
+                if len(seen) <= 4:
+                    ctx.report("e2e:%s:%s" % (key[0], " ".join(key[1:])[:40]), "a method called through an interface (or a type assertion) gives another result than under the reference toolchain",
+                               {"expected_line": want, "llgo_line": have, "exit_status": rc,
+                                "program": "package main of the generated universe (checks/c15.py main_shapes + corpus/C15/witnesses.json), func z15Run"})
+        elif died and after_last:
+            # the first line the program did not reach
+            fails += 1
+            ctx.report("e2e:%s:%s:died" % (key[0], " ".join(key[1:])[:40]), "the compiled program stopped (exit status %s) before printing the line the reference toolchain prints" % rc,
+                       {"expected_line": want, "last_line_printed": got[-1] if got else None, "exit_status": rc, "stderr_tail": "\n".join(l for l in se.split("\n") if not l.startswith("e2e "))[-800:],
                         "program": "package main of the generated universe (checks/c15.py main_shapes + corpus/C15/witnesses.json), func z15Run"})
-        if have is None:
             break
+        if key == last_printed:
+            after_last = True
+    if agree != len(oracle_e2e) and fails == 0:
+        fails += 1
+        missing = [w for w in oracle_e2e if tuple(w.split(" ")[1:-1]) not in have_by_key]
+        ctx.report("e2e:lines-missing:%s" % (missing[0] if missing else "?")[:80], "the compiled program does not print a line the reference toolchain prints",
+                   {"first_missing": missing[:5], "exit_status": rc, "stderr_tail": se[-800:]})
     if not oracle_e2e:
         ctx.report_broken("e2e: the reference build printed no e2e line", "")
-    ctx.log("e2e: %d of %d lines of z15Run() agree with the reference toolchain (exit status %s)" % (sum(1 for a, b in zip(got, oracle_e2e) if a == b), len(oracle_e2e), rc))
+    ctx.log("e2e: %d of %d lines of z15Run() agree with the reference toolchain (exit status %s)" % (agree, len(oracle_e2e), rc))
     return {"lines_compared": len(oracle_e2e), "spec_failures": fails, "exit_status": rc}
 
 
-def runtime_tie(ctx, types_, descs, oracle, pick, ir, irtext, modeld, envlines, stats, corr_bad):
+def build_native_loader(ctx):
+    from vlib import native
+    H = os.path.join(VERIF, "harness", "c15", "native")
+    return native.make_native(ctx, RT_FILES, {"zz_support.go": native.RT_SUPPORT, "zz_c15.go": open(os.path.join(H, "rt_extra.go.txt")).read()},
+                              {"main.go": open(os.path.join(H, "main.go.txt")).read()}, name="native-c15")
+
+
+def runtime_tie(ctx, nat, types_, descs, oracle, pick, ir, irtext, modeld, envlines, stats, corr_bad):
     """What the RUN-TIME LIBRARY reads out of the emitted descriptors.  Every descriptor constant of the module is rebuilt in native
     memory with the layout the IR declares (struct{ <header type named in the IR>; UncommonType; [n]Method }) and handed to the real
     runtime/abi readers (Uncommon, NumMethod, ExportedMethods, Methods, StructType, IsExported) and to the real
     runtime/internal/runtime DirectIfaceData / IfacePtrData (native copy).  Spec: the reference toolchain's reflect on the same source
     (NumMethod, Method(i).Name, PkgPath, Field(i).PkgPath) and the receiver-word rule; model: Model/TypeDesc.lean."""
-    from vlib import native, irlayout
-    H = os.path.join(VERIF, "harness", "c15", "native")
-    nat = native.make_native(ctx, RT_FILES, {"zz_support.go": native.RT_SUPPORT, "zz_c15.go": open(os.path.join(H, "rt_extra.go.txt")).read()},
-                             {"main.go": open(os.path.join(H, "main.go.txt")).read()}, name="native-c15")
+    from vlib import irlayout
     lay = irlayout.layouts(irtext)
     sizes = irlayout.type_sizes(irtext)
 
@@ -846,7 +904,8 @@ def runtime_tie(ctx, types_, descs, oracle, pick, ir, irtext, modeld, envlines, 
     mshape = {i: mout[27 + 54 + j].split(" ") for j, i in enumerate(shape_is)}
     for k in range(27):
         eh, rh, ew, rw = mhdr[k][0], mhdr[k][1], int(mhdr[k][2]), int(mhdr[k][3])
-        if rh not in hsize or hsize[rh][0] != probe.get(k):
+        # (interface types and the invalid kind never carry TFlagUncommon: abiUncommonMethodSet gives them no method set)
+        if k not in (0, 20) and (rh not in hsize or hsize[rh][0] != probe.get(k)):
             corr_bad.append(("kind %d" % k, KINDS[k], "(*abi.Type).Uncommon() looks %s bytes (native layout) into a descriptor of kind %s; the model's readHeader says behind a %s = %s bytes"
                              % (probe.get(k), KINDS[k], rh, hsize.get(rh, ("?",))[0])))
         if rh in hsize and hsize[rh][0] + 8 * hsize[rh][1] != 8 * rw:
@@ -854,6 +913,8 @@ def runtime_tie(ctx, types_, descs, oracle, pick, ir, irtext, modeld, envlines, 
         if eh in sizes and sizes[eh][0] != 8 * ew:
             corr_bad.append(("kind %d" % k, KINDS[k], "the IR declares %s with %d bytes; the model's Header.words says %d words" % (eh, sizes[eh][0], ew)))
         for b in (False, True):
+            if b and mdird[(k, b)][2] != "1":
+                continue        # the compiler never sets KindDirectIface on this kind (theorem direct_kinds): what the library answers is immaterial
             if (mdird[(k, b)][0] == "1") != dird[(k, b)][0]:
                 corr_bad.append(("kind %d direct %s" % (k, b), KINDS[k], "DirectIfaceData(kind %s, KindDirectIface %s) = %s on the real code, %s in the model" % (KINDS[k], b, dird[(k, b)][0], mdird[(k, b)][0])))
     ut = sizes.get("UncommonType", (None,))[0]
@@ -872,6 +933,8 @@ def runtime_tie(ctx, types_, descs, oracle, pick, ir, irtext, modeld, envlines, 
         dd, e, L = descs[i], ir[descs[i]["sym"]], lay.get(descs[i]["sym"])
         if dd["fbv"] or L is None or len(mshape[i]) != 3:
             continue        # a func value inside: the emitted type is the lowered one (closure structs)
+        if re.search(r'\b[GH]\[', types_[i][1]):
+            continue        # the environment keeps ONE underlying type per declaration: not that of every generic instance
         md, mh, msp = mshape[i]
         if (md == "1") != bool(e["kindbyte"] & 32):
             corr_bad.append((i, types_[i][1], "KindDirectIface emitted %s, the model's directIfaceType says %s" % (bool(e["kindbyte"] & 32), md)))
